@@ -404,7 +404,7 @@ Lemma vocab_roundtrip w i : vocab_id w = Some i -> vocab_word i = Some w /\ i < 
 Proof.
   intros H. apply assoc_word_in in H as [k [I ->]].
   pose proof vocab_ok_true as V. unfold vocab_ok in V. rewrite forallb_forall in V.
-  specialize (V _ I). cbn in V. destruct (vocab_word i) as [w'|]; [|discriminate].
+  specialize (V _ I). cbv beta iota in V. destruct (vocab_word i) as [w'|]; [|discriminate].
   apply andb_true_iff in V as [V1 V2]. apply lists_eqb_eq in V1. subst. split; [reflexivity|lia].
 Qed.
 
@@ -412,7 +412,7 @@ Lemma b128_one_digit i : i < 128 -> blen (b128 i) <= 64.
 Proof. intros H. apply b128_blen_64. assert (128 < 2 ^ 448) by (vm_compute; reflexivity). lia. Qed.
 
 (** decoding one encoded atom *)
-Lemma step_prefix pb n ty rest :
+Lemma step_prefix (pb : bool) n ty rest :
   128 <= ty -> blen (b128 n) <= 64 ->
   span128 (b128 n ++ ty :: rest) = (b128 n, ty :: rest) /\ (PREFIX_LIMIT <? blen (b128 n)) = false
   /\ from_le128 (b128 n) = n.
@@ -420,6 +420,18 @@ Proof.
   intros T L. split; [apply span128_digits; [apply b128_digits|exact T]|].
   split; [unfold PREFIX_LIMIT; lia|apply from_b128].
 Qed.
+
+(** evaluate the comparisons between type-byte constants *)
+Ltac tyconst :=
+  repeat match goal with
+         | |- context [N.eqb ?a ?b] =>
+             let v := eval vm_compute in (N.eqb a b) in
+             match v with
+             | true => change (N.eqb a b) with true
+             | false => change (N.eqb a b) with false
+             end
+         end;
+  cbn [orb]; cbv beta iota.
 
 Lemma pow448 : (2 ^ 448)%Z = Z.of_N (2 ^ 448).
 Proof. vm_compute. reflexivity. Qed.
@@ -435,13 +447,13 @@ Proof.
   destruct (z <? - 2 ^ 31)%Z eqn:E1; [|destruct (z <? 0)%Z eqn:E2; [|destruct (z <=? 2 ^ 31 - 1)%Z eqn:E3]];
     intros H; inversion H; subst b; clear H; rewrite <- app_assoc; cbn [app]; unfold step.
   - destruct (step_prefix pb (Z.to_N (- z)) LONGNEG tail) as (S & P & F); [unfold LONGNEG; lia|apply Hn; auto|].
-    rewrite S, P, F. cbn. f_equal. f_equal. lia.
+    rewrite S, P, F. tyconst. f_equal. f_equal. lia.
   - destruct (step_prefix pb (Z.to_N (- z)) NEG tail) as (S & P & F); [unfold NEG; lia|apply Hn; auto|].
-    rewrite S, P, F. cbn. f_equal. f_equal. lia.
+    rewrite S, P, F. tyconst. f_equal. f_equal. lia.
   - destruct (step_prefix pb (Z.to_N z) INT tail) as (S & P & F); [unfold INT; lia|apply Hn; auto|].
-    rewrite S, P, F. cbn. f_equal. f_equal. lia.
+    rewrite S, P, F. tyconst. f_equal. f_equal. lia.
   - destruct (step_prefix pb (Z.to_N z) LONGINT tail) as (S & P & F); [unfold LONGINT; lia|apply Hn; auto|].
-    rewrite S, P, F. cbn. f_equal. f_equal. lia.
+    rewrite S, P, F. tyconst. f_equal. f_equal. lia.
 Qed.
 
 Lemma step_encoded_str pb s b tail :
@@ -452,39 +464,38 @@ Proof.
     + intros H; inversion H; subst b; clear H. apply vocab_roundtrip in V as [W I].
       rewrite <- app_assoc; cbn [app]. unfold step.
       destruct (step_prefix true i VOCAB tail) as (S & P & F); [unfold VOCAB; lia|now apply b128_one_digit|].
-      rewrite S, P, F. cbn. now rewrite W.
+      rewrite S, P, F. tyconst. now rewrite W.
     + destruct (SIZE_LIMIT <? blen s) eqn:L; [discriminate|].
       intros H; inversion H; subst b; clear H. rewrite <- !app_assoc; cbn [app]. unfold step.
       destruct (step_prefix true (blen s) STRING (s ++ tail)) as (S & P & F);
         [unfold STRING; lia|apply b128_blen_small; lia|].
-      rewrite S, P, F. cbn [N.eqb Pos.eqb STRING LIST]. cbn match. rewrite L.
+      rewrite S, P, F. tyconst. rewrite L.
       replace (blen s <=? blen (s ++ tail)) with true by (rewrite blen_app; lia).
       now rewrite takeN_app_exact, dropN_app_exact.
   - destruct (SIZE_LIMIT <? blen s) eqn:L; [discriminate|].
     intros H; inversion H; subst b; clear H. rewrite <- !app_assoc; cbn [app]. unfold step.
     destruct (step_prefix false (blen s) STRING (s ++ tail)) as (S & P & F);
       [unfold STRING; lia|apply b128_blen_small; lia|].
-    rewrite S, P, F. cbn [N.eqb Pos.eqb STRING LIST]. cbn match. rewrite L.
+    rewrite S, P, F. tyconst. rewrite L.
     replace (blen s <=? blen (s ++ tail)) with true by (rewrite blen_app; lia).
     now rewrite takeN_app_exact, dropN_app_exact.
 Qed.
 
 Lemma step_encoded_float pb f tail :
-  blen f = 8 -> step pb (([FLOAT] ++ f) ++ tail) = Got (SFloat f) tail.
+  blen f = 8 -> step pb (FLOAT :: f ++ tail) = Got (SFloat f) tail.
 Proof.
-  intros L. cbn [app]. unfold step. cbn [span128]. change (FLOAT <? 128) with false. cbn match.
-  change (PREFIX_LIMIT <? blen []) with false. cbn match. cbn [N.eqb Pos.eqb FLOAT LIST STRING INT LONGINT LONGNEG NEG VOCAB orb].
-  cbn match.
+  intros L. unfold step. cbn [span128]. change (FLOAT <? 128) with false. cbv beta iota.
+  change (PREFIX_LIMIT <? blen []) with false. tyconst.
   replace (8 <=? blen (f ++ tail)) with true by (rewrite blen_app; lia).
   rewrite <- L. now rewrite takeN_app_exact, dropN_app_exact.
 Qed.
 
 Lemma step_encoded_open pb n tail :
-  n <= SIZE_LIMIT -> step pb (b128 n ++ [LIST] ++ tail) = Open n tail.
+  n <= SIZE_LIMIT -> step pb (b128 n ++ LIST :: tail) = Open n tail.
 Proof.
-  intros L. cbn [app]. unfold step.
+  intros L. unfold step.
   destruct (step_prefix pb n LIST tail) as (S & P & F); [unfold LIST; lia|now apply b128_blen_small|].
-  rewrite S, P, F. cbn [N.eqb Pos.eqb LIST]. cbn match.
+  rewrite S, P, F. tyconst.
   replace (SIZE_LIMIT <? n) with false by lia. reflexivity.
 Qed.
 
@@ -515,13 +526,13 @@ Proof.
              | context [match ?c with Some _ => _ | None => _ end] => destruct c
              | context [if ?c then _ else _] => destruct c
              end; try discriminate; inversion E; apply app_not_nil_l, app_not_nil_l, b128_not_nil.
-  - cbn [encode] in E. inversion E; subst b. cbn [wf] in W. rewrite runL_unfold by (cbn; congruence).
+  - cbn [encode] in E. inversion E; subst b. cbn [wf] in W. cbn [app].
+    rewrite runL_unfold by congruence.
     now rewrite (step_encoded_float pb f tail W).
   - rewrite encode_list in E. apply wf_list in W as [WL WF].
     destruct (SIZE_LIMIT <? blen l) eqn:SL; [discriminate|].
     destruct (encode_all pb l) as [body|] eqn:EA; [|discriminate]. cbn [bind] in E. inversion E; subst b; clear E.
-    rewrite <- !app_assoc. rewrite runL_unfold by (apply app_not_nil_l, b128_not_nil).
-    change (b128 (blen l) ++ [LIST] ++ body ++ tail) with (b128 (blen l) ++ [LIST] ++ (body ++ tail)).
+    rewrite <- !app_assoc. cbn [app]. rewrite runL_unfold by (apply app_not_nil_l, b128_not_nil).
     rewrite step_encoded_open by exact WL. cbn zeta. rewrite open_frame.
     destruct (blen l =? 0) eqn:Z.
     + assert (l = []) by (destruct l; [reflexivity|rewrite blen_cons in Z; lia]). subst l.
@@ -538,18 +549,20 @@ Proof.
       { clear IH WF EA body. induction rest as [|x rest IHr]; intros done body FI FW EA NE LEN; [congruence|].
         inversion FI as [|? ? Hx FI']; subst. inversion FW as [|? ? Wx FW']; subst.
         cbn [encode_all] in EA. destruct (encode pb x) as [bx|] eqn:Ex; [|discriminate].
-        destruct (encode_all pb rest) as [br|] eqn:Er; [|discriminate]. cbn [bind] in EA.
+        remember (encode_all pb rest) as ea eqn:Er in EA. symmetry in Er.
+        destruct ea as [br|]; [|discriminate]. cbn [bind] in EA.
         inversion EA; subst body; clear EA. rewrite <- app_assoc.
         rewrite (Hx Wx bx eq_refl). rewrite deliver_frame.
         rewrite blen_cons in LEN.
         destruct rest as [|y rest].
-        - replace (blen (done ++ [x]) =? blen l) with true by (rewrite blen_app; cbn; lia).
+        - change (blen (@nil sexp)) with 0 in LEN.
+          replace (blen (done ++ [x]) =? blen l) with true by (rewrite blen_app; change (blen [x]) with 1; lia).
           cbn in Er. inversion Er; subst br. reflexivity.
         - replace (blen (done ++ [x]) =? blen l) with false.
-          2:{ rewrite blen_app, blen_cons in *. change (blen [x]) with 1. lia. }
+          2:{ rewrite blen_app. change (blen [x]) with 1. rewrite blen_cons in LEN. lia. }
           rewrite (IHr (done ++ [x]) br FI' FW' Er ltac:(congruence)).
           + now rewrite <- app_assoc.
-          + rewrite blen_app. change (blen [x]) with 1. lia. }
+          + rewrite blen_app. change (blen [x]) with 1. rewrite blen_cons in LEN |- *. lia. }
       apply (G l [] body IH WF EA); [destruct l; [cbn in Z; lia|congruence]|cbn; lia].
 Qed.
 
@@ -605,7 +618,7 @@ Lemma step_refuses_long_prefix pb digits tl :
   step pb (digits ++ tl) = Fail ValueError.
 Proof.
   intros D L [->|(ty & rest & -> & T)]; unfold step.
-  - rewrite app_nil_r. rewrite (span128_all_digits digits [] D). cbn [span128 fst snd]. rewrite app_nil_r.
+  - rewrite (span128_all_digits digits [] D). cbn [span128 fst snd]. rewrite app_nil_r.
     replace (PREFIX_LIMIT <? blen digits) with true by lia. reflexivity.
   - rewrite (span128_digits digits ty rest D T). replace (PREFIX_LIMIT <? blen digits) with true by lia. reflexivity.
 Qed.
@@ -617,7 +630,7 @@ Lemma step_refuses_big_length pb digits ty rest :
 Proof.
   intros D L T S. unfold step. rewrite (span128_digits digits ty rest D) by (destruct T; subst; unfold LIST, STRING; lia).
   replace (PREFIX_LIMIT <? blen digits) with false by lia.
-  destruct T; subst ty; cbn [N.eqb Pos.eqb LIST STRING]; cbn match;
+  destruct T; subst ty; tyconst;
     replace (SIZE_LIMIT <? from_le128 digits) with true by lia; reflexivity.
 Qed.
 
